@@ -252,10 +252,18 @@ def data_word(d, i):
     return d["mem"].load(d["off"] + bv(i))
 
 
+MEM_TOUCHING = {"mload", "mstore", "mstore8", "mcopy", "calldatacopy", "codecopy", "extcodecopy", "returndatacopy", "sha3", "keccak256", "log0", "log1", "log2", "log3", "log4",
+                "call", "staticcall", "delegatecall", "callcode", "create", "create2", "return", "revert"}
+
+
 def exec_op(op, a, w):
     """Execute one non-control-flow operation.  `a` are the argument words in EVM stack order.
     Returns (value or None, world).  Raises Halt for terminating operations."""
     env = w.env
+    if op in MEM_TOUCHING and not w.writes:
+        w = w.replace(writes=("memory-touched",))
+    if op == "msize" and not w.writes:
+        return BV(0), w  # no memory access yet on this path: the active memory is empty
     if op in PURE_OPS:
         if op == "mul":
             # x * (c ? 1 : 0)  ==  c ? x : 0   (the `select` idiom of the legacy IR); same word, friendlier to the solver
